@@ -54,7 +54,6 @@ int vnacal_new_set_m_error(vnacal_new_t *vnp,
     }
     vcp = vnp->vn_vcp;
     vlp = &vnp->vn_layout;
-    m_error_vector = vnp->vn_m_error_vector;
     if (frequencies < 1) {
 	_vnacal_error(vcp, VNAERR_USAGE, "vnacal_new_set_m_error: "
 		"frequencies must be at least 1");
@@ -165,15 +164,13 @@ int vnacal_new_set_m_error(vnacal_new_t *vnp,
     }
 
     /*
-     * Allocate the vector if needed.
+     * Build the new vector aside so that a failure below leaves the
+     * current error model in place.
      */
-    if (m_error_vector == NULL) {
-	if ((m_error_vector = malloc(vnp->vn_frequencies *
-			sizeof(vnacal_new_m_error_t))) == NULL) {
-	    _vnacal_error(vcp, VNAERR_SYSTEM, "malloc: %s", strerror(errno));
-	    return -1;
-	}
-	vnp->vn_m_error_vector = m_error_vector;
+    if ((m_error_vector = malloc(vnp->vn_frequencies *
+		    sizeof(vnacal_new_m_error_t))) == NULL) {
+	_vnacal_error(vcp, VNAERR_SYSTEM, "malloc: %s", strerror(errno));
+	return -1;
     }
 
     /*
@@ -191,12 +188,12 @@ int vnacal_new_set_m_error(vnacal_new_t *vnp,
      */
     if (frequencies == 1) {
 	for (int findex = 0; findex < vnp->vn_frequencies; ++findex) {
-	    vnp->vn_m_error_vector[findex].vnme_sigma_nf =
+	    m_error_vector[findex].vnme_sigma_nf =
 		sigma_nf_vector[0];
 	}
 	if (sigma_tr_vector != NULL) {
 	    for (int findex = 0; findex < vnp->vn_frequencies; ++findex) {
-		vnp->vn_m_error_vector[findex].vnme_sigma_tr =
+		m_error_vector[findex].vnme_sigma_tr =
 		    sigma_tr_vector[0];
 	    }
 	}
@@ -208,12 +205,12 @@ int vnacal_new_set_m_error(vnacal_new_t *vnp,
     } else if (frequency_vector == NULL) {
 	assert(frequencies == vnp->vn_frequencies);
 	for (int findex = 0; findex < vnp->vn_frequencies; ++findex) {
-	    vnp->vn_m_error_vector[findex].vnme_sigma_nf =
+	    m_error_vector[findex].vnme_sigma_nf =
 		sigma_nf_vector[findex];
 	}
 	if (sigma_tr_vector != NULL) {
 	    for (int findex = 0; findex < vnp->vn_frequencies; ++findex) {
-		vnp->vn_m_error_vector[findex].vnme_sigma_tr =
+		m_error_vector[findex].vnme_sigma_tr =
 		    sigma_tr_vector[findex];
 	    }
 	}
@@ -229,10 +226,11 @@ int vnacal_new_set_m_error(vnacal_new_t *vnp,
 		    sigma_nf_vector, c_vector) == -1) {
 	    _vnacal_error(vcp, VNAERR_SYSTEM, "malloc: %s",
 		    strerror(errno));
+	    free((void *)m_error_vector);
 	    return -1;
 	}
 	for (int findex = 0; findex < vnp->vn_frequencies; ++findex) {
-	    vnp->vn_m_error_vector[findex].vnme_sigma_nf =
+	    m_error_vector[findex].vnme_sigma_nf =
 		_vnacommon_spline_eval(frequencies - 1, frequency_vector,
 			sigma_nf_vector, c_vector,
 			vnp->vn_frequency_vector[findex]);
@@ -242,15 +240,18 @@ int vnacal_new_set_m_error(vnacal_new_t *vnp,
 			sigma_tr_vector, c_vector) == -1) {
 		_vnacal_error(vcp, VNAERR_SYSTEM, "malloc: %s",
 			strerror(errno));
+		free((void *)m_error_vector);
 		return -1;
 	    }
 	    for (int findex = 0; findex < vnp->vn_frequencies; ++findex) {
-		vnp->vn_m_error_vector[findex].vnme_sigma_tr =
+		m_error_vector[findex].vnme_sigma_tr =
 		    _vnacommon_spline_eval(frequencies - 1, frequency_vector,
 			    sigma_tr_vector, c_vector,
 			    vnp->vn_frequency_vector[findex]);
 	    }
 	}
     }
+    free((void *)vnp->vn_m_error_vector);
+    vnp->vn_m_error_vector = m_error_vector;
     return 0;
 }
